@@ -192,7 +192,7 @@ def check(run, prog, tier):
     # ------------------------------------------------------------------ S4 (decided by C10 / C14 rule instances)
     from . import C10, C14
     for mod, pid, picks in ((C10, "C10", ("offer-carries-ANNOUNCE_TTL", "phase-delays", "initial-delay", "repetitions-bounded")),
-                            (C14, "C14", ("_send_start_subscribe:ttl", "sleeps-refresh-interval", "every-server-every-round", "round-sends-every-requested-pair",
+                            (C14, "C14", (":subscribe-ttl", "sleeps-refresh-interval", "every-server-every-round", "round-sends-every-requested-pair",
                                           "keeps-the-requested-set", "who-changes-the-requested-set"))):
         sub = report.subrun(mod, pid, prog, tier, run.seed)
         n = 0
